@@ -67,6 +67,7 @@ func (x *Exec) wake(s *State, id int) {
 func (x *Exec) doGo(s *State, f *Frame, in *ssa.Go) bool {
 	sp := x.evalCall(s, f, &in.Call)
 	f.PC++
+	x.NGo++
 	nt := &Thread{ID: len(s.Threads)}
 	s.Threads = append(s.Threads, nt)
 	cur := s.Cur
